@@ -59,11 +59,15 @@ def f64IsNegZeroOrNeg (b : UInt64) : Bool := f64Sign b
 def f64OfInt (n : Int) : UInt64 :=
   if n == 0 then 0 else roundF64 (n : Rat)
 
+/-- a NaN operand propagates with its payload, quieted (x86 SSE; when both operands are NaN
+    the first is taken — the harness generates canonical NaNs only, see DESIGN §0.2). -/
+def quietNaN (b : UInt64) : UInt64 := b ||| 0x0008000000000000
+
 /-- IEEE addition on bit patterns. -/
 def f64Add (a b : UInt64) : UInt64 :=
   match f64Val a, f64Val b with
-  | .nan, _ => canonNaN
-  | _, .nan => canonNaN
+  | .nan, _ => quietNaN a
+  | _, .nan => quietNaN b
   | .pinf, .ninf => canonNaN
   | .ninf, .pinf => canonNaN
   | .pinf, _ => f64PosInf
@@ -81,8 +85,8 @@ def f64Mul (a b : UInt64) : UInt64 :=
   let inf := if neg then f64NegInf else f64PosInf
   let zero := if neg then f64NegZero else (0 : UInt64)
   match f64Val a, f64Val b with
-  | .nan, _ => canonNaN
-  | _, .nan => canonNaN
+  | .nan, _ => quietNaN a
+  | _, .nan => quietNaN b
   | .fin x, .fin y =>
     if x == 0 || y == 0 then zero
     else
